@@ -188,7 +188,17 @@ def match_answer(fam, metric, ans):
                 return v
         return None
 
+    def loose(a):
+        """Characters that are not ASCII letters but whose Unicode upper-case or case-fold is one
+        (long s, dotless i, Kelvin sign ...): "case-insensitively" can be read either way."""
+        for v in legal:
+            if v.lower() != a.lower() and (v.upper() == a.upper() or v.casefold() == a.casefold()):
+                return v
+        return None
+
     if stripped == ans:
+        if exact(ans) is None and ans and loose(ans) is not None:
+            return set([loose(ans), None])
         return set([exact(ans)])
     # blank-padded or blank-only answers: accepting the stripped text and re-asking are both admitted
     return set([exact(stripped), None])
